@@ -244,6 +244,9 @@ func genC16C(t *rapid.T) C16CCase {
 	n := rapid.IntRange(1, 9).Draw(t, "nops")
 	for i := 0; i < n; i++ {
 		op := C16COp{Op: rapid.SampledFrom([]string{"init", "init", "op", "op", "op", "close"}).Draw(t, "op")}
+		if c.Kind == 0 && rapid.IntRange(0, 9).Draw(t, "lost") == 0 {
+			op.Op = "lost" // the server forgets the session: from now on it answers 404 to everything but a new handshake
+		}
 		if c.Kind == 2 && rapid.IntRange(0, 9).Draw(t, "childdies") == 0 {
 			op.Op = "childdies" // the server process is killed behind the client's back (and reaped by its watcher)
 		}
@@ -328,8 +331,13 @@ func execC16C(c C16CCase) *Failure {
 	// the scripted peer's behaviour for the next handshake
 	nextInit := "ok"
 	fake := &FakeServer{Legacy: c.Kind == 1, Stateful: c.Kind == 0}
+	var lost atomic.Bool
 	fake.Plan = func(method, kind string, nth int) FakeAction {
+		if method != "initialize" && lost.Load() {
+			return FakeAction{Kind: "http", Status: 404}
+		}
 		if method == "initialize" {
+			lost.Store(false)
 			switch nextInit {
 			case "rpc-error":
 				return FakeAction{Kind: "rpc-error"}
@@ -477,6 +485,7 @@ func execC16C(c C16CCase) *Failure {
 		}
 	}
 	childUsed := false
+	lostMode := false
 	for i, op := range c.Ops {
 		where := fmt.Sprintf("kind=%d op %d %s%s%s (initialized=%v)", c.Kind, i, op.Op, op.Init, op.Call, inited)
 		curMethod = opMethod[op.Call]
@@ -501,6 +510,16 @@ func execC16C(c C16CCase) *Failure {
 			cancel()
 			if c.Kind == 2 {
 				childUsed = true
+			}
+			if lostMode {
+				// the state the client reports decides whether a handshake is due
+				if err == nil {
+					inited, lostMode = true, false
+					if client.GetState() != mcp.StateInitialized {
+						return Failf("C16/state", "%s: state %q after a successful handshake", where, client.GetState())
+					}
+				}
+				continue
 			}
 			switch {
 			case inited:
@@ -560,8 +579,21 @@ func execC16C(c C16CCase) *Failure {
 					dead = mode == "transport-error" || mode == "notify-fails"
 				}
 			}
+		case "lost":
+			if inited {
+				lost.Store(true)
+				lostMode = true
+			}
 		case "op":
 			err := doCall(client, op.Call)
+			if lostMode {
+				// what a client does about a session its server has forgotten is its business; what it reports must agree with
+				// what it does: an operation refused as "not initialized" without touching the network means the state is not "initialized"
+				if isNotInitErr(err) && counter() == before && client.GetState() == mcp.StateInitialized {
+					return Failf("C16/state-guard-disagree", "%s: after the server forgot the session the operation is refused as not initialized (nothing sent) while GetState reports %q", where, client.GetState())
+				}
+				continue
+			}
 			if inited && !dead {
 				if err != nil {
 					return Failf("C16/op-failed-when-initialized/"+op.Call, "%s: %v", where, err)
@@ -599,7 +631,8 @@ func execC16C(c C16CCase) *Failure {
 				// Close errors are not part of this property (C07 / C08)
 				_ = err
 			}
-			inited = false
+			inited, lostMode = false, false
+			lost.Store(false)
 			if c.Kind != 0 {
 				dead = true
 			}
@@ -607,7 +640,7 @@ func execC16C(c C16CCase) *Failure {
 				return Failf("C16/state", "%s: state %q after Close", where, client.GetState())
 			}
 		}
-		if !inited && client.GetState() == mcp.StateInitialized {
+		if !inited && !lostMode && client.GetState() == mcp.StateInitialized {
 			return Failf("C16/state", "%s: state %q although the client is not initialized", where, client.GetState())
 		}
 	}
